@@ -219,8 +219,8 @@ func GenProgram(rng *rand.Rand, faults bool, hookable bool) *Program {
 			// use of an older Start instance of the key (its updater is stale once the trigger is gone)
 			k := rng.IntN(p.Keys)
 			kind := "ev"
-			if faults && rng.IntN(2) == 0 {
-				kind = "done"
+			if (faults && rng.IntN(2) == 0) || (!faults && rng.IntN(3) == 0) {
+				kind = "done" // the source of an earlier trigger of the key finishes late
 			}
 			back := 1 + rng.IntN(2)
 			if kind == "ev" && rng.IntN(2) == 0 {
